@@ -440,6 +440,21 @@ class HSet(list):
     """std::collections::HashSet over values compared with v_eq (insertion order kept, it is never observed)"""
 
 
+class HMap(list):
+    """std::collections::HashMap as a list of [key, value] cells, keys compared with v_eq (a later insert of an equal key
+    replaces the value, as the real map does; iteration order is never observed - iterating is Unsupported)"""
+
+
+def hmap_insert(I, m, k, v):
+    for cell in m:
+        if I.truth(v_eq(I, cell[0], k)):
+            old = cell[1]
+            cell[1] = v
+            return Some(old)
+    m.append([k, v])
+    return NONE
+
+
 # ---- paths, calls, macros --------------------------------------------------------------------------------
 
 
@@ -487,6 +502,10 @@ def call_path(I, segs, args, env, fexpr):
         return {"Some": Some, "Ok": Ok, "Err": Err}[last](args[0])
     if s in ("HashSet::new", "HashSet::default", "std::collections::HashSet::new"):
         return HSet()
+    if s in ("HashMap::new", "HashMap::default", "std::collections::HashMap::new", "HashMap::with_capacity"):
+        return HMap()
+    if s in ("String::with_capacity", "Vec::with_capacity"):
+        return SStr() if s.startswith("String") else SVec()
     if s in ("String::new", "Vec::new", "String::default"):
         return SStr() if s.startswith("String") else SVec()
     if s == "String::from":
@@ -733,6 +752,10 @@ def method(I, recv, name, args, e, env):
             return good
         if name == "is_none" or name == "is_err":
             return not good
+        if name in ("is_some_and", "is_ok_and"):
+            return bool(good) and I.truth(I.call_closure(args[0], [recv.fields[0]]))
+        if name == "is_none_or":
+            return (not good) or I.truth(I.call_closure(args[0], [recv.fields[0]]))
         if name == "filter":
             if good and I.truth(I.call_closure(args[0], [recv.fields[0]])):
                 return recv
@@ -750,6 +773,11 @@ def method(I, recv, name, args, e, env):
             return NONE
         if name == "collect":
             tf = (e.get("turbofish") or "").replace(" ", "")
+            if "HashMap" in tf:
+                out = HMap()
+                for x in items:
+                    hmap_insert(I, out, x[0], x[1])
+                return out
             if "String" in tf or (items and isinstance(items[0], Ch) and "Vec" not in tf) or (not items and "Vec" not in tf and "String" in I.type_hint(e, env)):
                 out = SStr()
                 for x in items:
@@ -1035,6 +1063,24 @@ def method(I, recv, name, args, e, env):
     if isinstance(recv, SVec) and name in ("chars", "push_str", "split_whitespace", "split_once", "starts_with", "trim", "parse") \
             and all(isinstance(x, Ch) for x in recv):
         return method(I, SStr(recv), name, args, e, env)
+    if isinstance(recv, HMap):
+        if name == "insert":
+            return hmap_insert(I, recv, args[0], args[1])
+        if name in ("get", "get_mut"):
+            for cell in recv:
+                if I.truth(v_eq(I, cell[0], args[0])):
+                    return Some(cell[1])
+            return NONE
+        if name == "contains_key":
+            for cell in recv:
+                if I.truth(v_eq(I, cell[0], args[0])):
+                    return True
+            return False
+        if name == "len":
+            return len(recv)
+        if name == "is_empty":
+            return len(recv) == 0
+        raise Unsupported("HashMap::%s" % name)
     if isinstance(recv, HSet):
         if name == "insert":
             for y in recv:
